@@ -259,6 +259,7 @@ RESTART:
 	if !ok {
 		return tmconsensus.HandleProposedHeaderInternalError
 	}
+	verifGate("PH:afterCheck")
 
 	if checkResp.Status == tmi.PHCheckAlreadyHaveSignature {
 		// Easy early return case.
@@ -474,6 +475,7 @@ RETRY:
 	if !ok {
 		return tmconsensus.HandleVoteProofsInternalError
 	}
+	verifGate("Prevote:afterLookup")
 
 	if vlResp.Status == tmi.ViewFuture {
 		// Special handling for this case.
@@ -831,6 +833,7 @@ RETRY:
 	if !ok {
 		return tmconsensus.HandleVoteProofsInternalError
 	}
+	verifGate("Precommit:afterLookup")
 
 	if vlResp.Status == tmi.ViewFuture {
 		// Special handling for this case.
